@@ -5,6 +5,7 @@ Property theorems about the model in `Model/Config.lean` (Mathlib-free).
 -/
 import Midgard.Model.Config
 import Midgard.Generated.ConfigTables
+import Midgard.Proofs.ConfigRoundTrip
 
 namespace Midgard.Props.C19
 open Midgard.Config
@@ -1081,21 +1082,114 @@ theorem fill_keeps_words (w hang : Nat) (text : List Char) :
       = wordChunks (chunks (munge text)) :=
   wrap_keeps_words w hang _ true _ (Nat.le_succ _)
 
-/-! ### Text form — NOT proved
+/-! ### Text form: written with `as_str`, read back with `update_from_file`
 
-Proved above: `wrap_keeps_words` / `fill_keeps_words` (the writer's line breaking keeps every word chunk, in
-order, for every width). Full round-trip statement (kept for the record; no theorem establishes it):
+The statement is about exactly the functions the driver runs for its `w` and `r` operations
+(`asStr`, `Cfg.updateFromText` = `readIniRaw` + `fileUpdates` + `Cfg.updateMany`), which every run compares
+character for character with `Configuration.as_str` and with `ConfigParser` + `update_from_file` on the
+written file.  The proof is in `Proofs/ConfigWrap, ConfigLines, ConfigRead, ConfigReadDoc, ConfigFile,
+ConfigDoc, ConfigStore, ConfigRoundTrip`.
 
-    theorem text_roundtrip (secs : Sections) (hwf : every key is a lower-case word without ':' '=' blanks,
-        every section name a word without "__", every value and metadata text a list of words separated by
-        single blanks with no word starting in '#' or ';') (w : Nat) (hw : 34 ≤ w) :
-      (Cfg.new "r").updateFromText (asStr w 30 secs ++ "\n") src true false
-        = .ok (c', none)  ∧  view c' = view secs        -- same sections, keys, values, metadata
+`WfText lower w kw secs` (decidable, `Proofs/ConfigDoc.lean`) says which configurations the text form can
+carry — each clause is a way the real reader would return something else:
+ * section names: pairwise different, no blank, a non-empty part before the first `__`, not `DEFAULT`;
+   sections are not empty (`as_str` leaves an empty section out);
+ * keys: pairwise different within a section, not empty, no blank, no `=`, no `:` (that marks metadata), lower
+   case unless the reader is case sensitive, not starting with `[`, `#` or `;`; key, padding and `=` fit the
+   line (`max kw |key| + 2 ≤ w`); the same for the metadata option names `key:meta`, and the metadata names of
+   one entry are pairwise different;
+ * values and metadata texts: words separated by single blanks (the empty text included), no `%`
+   (interpolation), no word starting with `#` or `;` (a wrapped line starting with such a word is a comment).
+Long words, words longer than the line, values wrapped over any number of lines, keys longer than the key
+column, valueless metadata (`key:meta` alone on a line) and `section__profile` names are all inside. -/
 
-What stands in for it on every run: (i) `asStr` of the model equals `cfg.as_str` of the code character for
-character on every generated configuration (op `w`), (ii) the model's reader equals
-`ConfigParser` + `update_from_file` on the written file (op `r`), and (iii) the oracle requires the view of
-`Configuration.read_from_file(write_to_file(cfg))` to equal the view of `cfg` for such values. -/
+open Midgard.Proofs.ConfigText (WfText readBack readEntry sourceFor profileOf baseOf)
+
+/-- **Text round trip.**  For every well-formed configuration `secs` (the flattened view `as_str` writes),
+every line width `w` and key column `kw`: reading the written text (`as_str` + the final line break of
+`write_to_file`) into a new configuration succeeds without error, and the configuration read has, for every
+profile `p`, exactly the sections that were written under a name standing for `p` (`name` → no profile,
+`name__p` → profile `p`), in the order written, each with the same keys in the same order, the same values
+and the same metadata (`readBack`); its flattened view is the profile-less part. -/
+theorem text_roundtrip (caseSensitive : Bool) (w kw : Nat) (secs : Sections)
+    (hwf : WfText (!caseSensitive) w kw secs = true) (name src : String) :
+    ∃ c', (Cfg.new name).updateFromText (asStr w kw secs ++ "\n") src true caseSensitive = .ok (c', none) ∧
+      c'.name = name ∧ c'.profiles = [none] ∧ c'.master = none ∧ c'.vars = [] ∧
+      (∀ p, (dget? c'.profileSections p).getD [] = readBack src p secs) ∧
+      c'.sections = readBack src none secs :=
+  Midgard.Proofs.ConfigText.text_roundtrip_main caseSensitive w kw secs hwf name src
+
+/-- **Text round trip, no profile sections.**  When no section name contains `__`, the view read back is the
+view written: the same sections in the same order, the same keys in the same order, the same values and the
+same metadata; only the source of the entries is now the file. -/
+theorem text_roundtrip_plain (caseSensitive : Bool) (w kw : Nat) (secs : Sections)
+    (hwf : WfText (!caseSensitive) w kw secs = true)
+    (hplain : ∀ ns ∈ secs, (partDunder ns.1.toList).2.1 = false) (name src : String) :
+    ∃ c', (Cfg.new name).updateFromText (asStr w kw secs ++ "\n") src true caseSensitive = .ok (c', none) ∧
+      c'.sections = secs.map (fun ns => (ns.1, ns.2.map (fun ke => (ke.1, ⟨ke.2.value, src, ke.2.metas⟩)))) :=
+  Midgard.Proofs.ConfigText.text_roundtrip_plain_main caseSensitive w kw secs hwf hplain name src
+
+/-- the driver's `r` operation (`Driver/C19.lean`: key column 30, reader not case sensitive, configuration
+`reread`, source `F`) answers with the view written -/
+theorem text_roundtrip_driver (w : Nat) (secs : Sections) (hwf : WfText true w 30 secs = true)
+    (hplain : ∀ ns ∈ secs, (partDunder ns.1.toList).2.1 = false) :
+    ∃ c', (Cfg.new "reread").updateFromText (asStr w 30 secs ++ "\n") "F" true false = .ok (c', none) ∧
+      c'.sections = secs.map (fun ns => (ns.1, ns.2.map (fun ke => (ke.1, ⟨ke.2.value, "F", ke.2.metas⟩)))) :=
+  text_roundtrip_plain false w 30 secs hwf hplain "reread" "F"
+
+/-- the text form does not contain the sources -/
+theorem sectionStr_ignores_source (w kw : Nat) (n : String) (s : Section) (src : String) :
+    sectionStr w kw n (s.map (fun ke => (ke.1, (⟨ke.2.value, src, ke.2.metas⟩ : Entry)))) = sectionStr w kw n s := by
+  simp only [sectionStr, List.map_map]
+  rfl
+
+theorem asStr_ignores_source (w kw : Nat) (secs : Sections) (src : String) :
+    asStr w kw (secs.map (fun ns => (ns.1, ns.2.map (fun ke => (ke.1, (⟨ke.2.value, src, ke.2.metas⟩ : Entry)))))) =
+      asStr w kw secs := by
+  simp only [asStr, List.map_map]
+  congr 3
+  apply List.map_congr_left
+  intro ns _
+  exact sectionStr_ignores_source w kw ns.1 ns.2 src
+
+/-- **the text form is stable**: a written configuration that is read back and written again gives the same
+text, character for character (what `update_on_file` and the fixed `FILE_WIDTH` are for) -/
+theorem text_form_stable (caseSensitive : Bool) (w kw : Nat) (secs : Sections)
+    (hwf : WfText (!caseSensitive) w kw secs = true)
+    (hplain : ∀ ns ∈ secs, (partDunder ns.1.toList).2.1 = false) (name src : String) :
+    ∃ c', (Cfg.new name).updateFromText (asStr w kw secs ++ "\n") src true caseSensitive = .ok (c', none) ∧
+      asStr w kw c'.sections = asStr w kw secs := by
+  obtain ⟨c', h1, h2⟩ := text_roundtrip_plain caseSensitive w kw secs hwf hplain name src
+  exact ⟨c', h1, by rw [h2]; exact asStr_ignores_source w kw secs src⟩
+
+/-- what `readBack` says, entry by entry: a written section `n` with entry `(k, e)` is found under profile
+`profileOf n`, section `baseOf n`, key `k`, with value and metadata of `e` -/
+theorem readBack_mem (src : String) (secs : Sections) (n : String) (s : Section) (h : (n, s) ∈ secs) :
+    (baseOf n, s.map (fun ke => (ke.1, readEntry src (profileOf n) ke.2))) ∈ readBack src (profileOf n) secs := by
+  simp only [readBack, List.mem_map, List.mem_filter, decide_eq_true_eq]
+  exact ⟨(n, s), ⟨h, rfl⟩, rfl⟩
+
+/-- a non-trivial configuration inside `WfText` at width 45 (13 characters per continuation line): a value
+wrapped over many lines, a word longer than a line, a hyphenated word, words with `#`, `;`, `=`, `[`, `:`
+inside, an empty value, a key longer than the key column, metadata with and without value, a wrapped help
+text, and two profiles of the same section -/
+def exampleSecs : Sections :=
+  [("gnss",
+     [("stations", ⟨"zimm onsa nyal trom hofn mets wtzr kir0 mar6 vis0 north-east", "code", []⟩),
+      ("empty", ⟨"", "", []⟩),
+      ("a_key_longer_than_the_key_column", ⟨"/a/path/that/is/much/longer/than/the/forty-five/characters/of/a/line.txt b", "",
+        [("help", some "How the a#b c;d e=f [g] h:i values are chosen"), ("type", some "List[str]"), ("flag", none)]⟩)]),
+   ("gnss__vlbi", [("stations", ⟨"wettzell ny-alesund", "", [("help", some "x")]⟩)]),
+   ("gnss__slr", [("stations", ⟨"", "", []⟩), ("k2", ⟨"0", "", []⟩)]),
+   ("files", [("path", ⟨"{year}/{doy:03d}/file.txt", "", [("wrapper", none)]⟩)])]
+
+example : WfText true 45 30 exampleSecs = true := by decide +kernel
+example : WfText true 200 30 exampleSecs = true := by decide +kernel
+/-- the first value is written on six lines -/
+example : (entryLines 45 30 "stations"
+    ⟨"zimm onsa nyal trom hofn mets wtzr kir0 mar6 vis0 north-east", "code", []⟩).length = 6 := by decide +kernel
+/-- a word starting with `#` is outside (it would be read as a comment when it starts a line) -/
+example : WfText true 45 30 [("s", [("k", ⟨"a #b", "", []⟩)])] = false := by decide +kernel
 
 end Midgard.Props.C19
 
@@ -1174,3 +1268,10 @@ end Midgard.Props.C19
 #print axioms Midgard.Props.C19.digit_not_blank
 #print axioms Midgard.Props.C19.stripBlanks_id
 #print axioms Midgard.Props.C19.int_plain
+#print axioms Midgard.Props.C19.text_roundtrip
+#print axioms Midgard.Props.C19.text_roundtrip_plain
+#print axioms Midgard.Props.C19.text_roundtrip_driver
+#print axioms Midgard.Props.C19.readBack_mem
+#print axioms Midgard.Props.C19.sectionStr_ignores_source
+#print axioms Midgard.Props.C19.asStr_ignores_source
+#print axioms Midgard.Props.C19.text_form_stable
